@@ -54,6 +54,16 @@ fn is_document_marker_like(s: &str) -> bool {
     rest.chars().next().is_none_or(|c| c.is_ascii_whitespace())
 }
 
+/// A plain scalar cannot carry a blank at either end (the parser strips them, and a root
+/// scalar loses a leading byte-order mark, which every string entry point strips).
+/// `s` must not be empty.
+fn has_edge_blank_or_leading_bom(s: &str) -> bool {
+    let bytes = s.as_bytes();
+    bytes[0].is_ascii_whitespace()
+        || bytes[bytes.len() - 1].is_ascii_whitespace()
+        || s.starts_with('\u{FEFF}')
+}
+
 fn is_ambiguous(s: &str) -> bool {
     if s.is_empty() {
         return true;
@@ -151,7 +161,7 @@ pub(crate) fn is_plain_safe(s: &str) -> bool {
         return false;
     }
     let bytes = s.as_bytes();
-    if bytes[0].is_ascii_whitespace() {
+    if has_edge_blank_or_leading_bom(s) {
         return false;
     }
 
@@ -190,7 +200,7 @@ pub(crate) fn is_plain_value_safe(s: &str, yaml_12: bool, in_flow: bool) -> bool
     }
 
     let bytes = s.as_bytes();
-    if bytes[0].is_ascii_whitespace() {
+    if has_edge_blank_or_leading_bom(s) {
         return false;
     }
 
